@@ -1,9 +1,11 @@
 import UtilModel.Core.Driver
 import UtilModel.Keyed.Model
+import UtilModel.Keyed.Monitors
 /-! Development driver for this component only: `lake env lean --run UtilModel/Keyed/TestDriver.lean keyed < hist` -/
 open UtilModel
 
 def main (args : List String) : IO UInt32 :=
   driverMain [
-    mkEntry "keyed" Keyed.model Keyed.Obs.parse []
+    mkEntry "keyed" Keyed.model Keyed.Obs.parse
+      [MonEntry.ofMonitor "C06" Keyed.monC06, MonEntry.ofMonitor "C07" Keyed.monC07] (cap := 3000)
   ] args
